@@ -7,7 +7,7 @@ import resolve_gen as rg
 import resolved_io
 import vlib
 
-GEN = ["GenResolve"]
+GEN = ["GenResolve", "GenSrcDigest"]
 TRUSTED = [
     "Coq 8.16.1 kernel (coqc); vm_compute only for the refutation witnesses and the non-vacuity examples; no axioms",
     "translator tools/gens/gen_resolve.py (four flags: do fn if_branch / fn case_branch / the fall_through arm of fn "
@@ -80,6 +80,13 @@ def gen_programs(ctx, n, salt):
         if hasattr(rg, "layouts"):
             for files, main in rg.layouts(p, r, nd, 2, prelude=pre):
                 out.append(("gen-multifile", rg.case(files, main, std)))
+    # `x := f(x)` shapes (see oracle_stream): a sample of them takes part in the tie as well
+    r = vlib.rng(ctx.seed, salt + "-self")
+    for _ in range(min(n, 60)):
+        ci, ii = r.randrange(len(rg.SELF_CTX)), r.randrange(len(rg.SELF_INITS))
+        out.append(("gen-self-shadow", rg.single(rg.self_shadow_program(
+            ci, ii, r.choice(["total", "bumped"]), r.choice(["local", "param", "global"]), r.random() < 0.5), True)))
+        out.append(("gen-self-use", rg.single(rg.self_use_program(ci, ii, r.random() < 0.5), True)))
     if hasattr(rg, "module_noise"):
         for i in range(n):
             r = vlib.rng(ctx.seed, "%s-noise-%d" % (salt, i))
@@ -243,6 +250,20 @@ def oracle_stream(ctx, n, salt):
             items.append({"kind": "planted", "p": p, "na": nd, "at": (ss, k, b), "cls": "planted", "leak": lv})
     if hasattr(rg, "nsfield_cases"):
         items += rg.nsfield_cases(ctx, n // 4 + 1, salt)
+    # `x := f(x)`: the initialiser mentions an OUTER variable of the same name (plain, and with a function
+    # literal in argument position), in blocks / branches / loops / closures, outer = local / parameter /
+    # global: naming the new variable like the outer one or freshly must give the same Lua; with no outer
+    # variable the use inside the own initialiser must be rejected.  The family is small: all of it, always.
+    for ci in range(len(rg.SELF_CTX)):
+        for ii in range(len(rg.SELF_INITS)):
+            for outer in ("local", "param", "global"):
+                for mut in (True, False):
+                    items.append({"kind": "files-pair", "cls": "self-shadow", "leak": False,
+                                  "a": {"/main.sy": rg.self_shadow_program(ci, ii, "bumped", outer, mut)},
+                                  "b": {"/main.sy": rg.self_shadow_program(ci, ii, "total", outer, mut)}})
+            for mut in (True, False):
+                items.append({"kind": "src-reject", "cls": "use-in-own-initialiser", "leak": False,
+                              "files": {"/main.sy": rg.self_use_program(ci, ii, mut)}})
     return items
 
 
@@ -260,6 +281,8 @@ def render_item(it):
             ss.pop(k)
     if it["kind"] == "files-pair":
         return [rg.case(it["a"], "/main.sy", True), rg.case(it["b"], "/main.sy", True)]
+    if it["kind"] == "src-reject":
+        return [rg.case(it["files"], "/main.sy", True)]
     raise ValueError(it["kind"])
 
 
@@ -280,7 +303,7 @@ def judge(it, results):
         if ea and eb and (ea[0], ea[2]) == (eb[0], eb[2]):
             return None
         return "both rejected but with different first errors (%s | %s)" % (a[:80], b[:80])
-    if it["kind"] == "planted":
+    if it["kind"] in ("planted", "src-reject"):
         (a,) = results
         if a.startswith("OK"):
             return "a use of a variable outside its scope / before its declaration is accepted"
@@ -365,7 +388,9 @@ def always(ctx):
                            "naming vs a maximal-shadowing naming of the same generated program (also a shadowing naming "
                            "constrained to be immune to the recorded scope leak); (b) one planted use of a local "
                            "outside its scope or before its declaration must be rejected; (c) parameter named like an "
-                           "imported namespace used in field position"}
+                           "imported namespace used in field position; (d) `x := f(x)` with an outer x (also with a function literal in "
+                           "argument position, arrow calls) named like the outer variable vs freshly -> identical Lua, and "
+                           "the same initialisers with no outer variable -> rejected"}
 
 
 def describe(it, v):
